@@ -123,10 +123,11 @@ func syinv(c *syncer) bool {
 //@   requires qinv(q)
 //@   modifies q.sequenceBase
 //@   ensures qinv(q) && q.sequenceTop == old(q.sequenceTop)
-//@   ensures qsize(q) <= old(qsize(q))
-//@   ensures q.sequenceBase == old(q.sequenceBase) ||
-//@           (inwin(old(q.sequenceBase), q.sequenceTop, seq) && int(q.sequenceBase) == (int(seq)+1) % int(q.cfg.s))
-//@   ensures moved == (q.sequenceBase != old(q.sequenceBase))
+//@   ensures implies(seq < q.cfg.s, qsize(q) <= old(qsize(q)))
+//@   ensures implies(seq < q.cfg.s, q.sequenceBase == old(q.sequenceBase) ||
+//@           (inwin(old(q.sequenceBase), q.sequenceTop, seq) && int(q.sequenceBase) == (int(seq)+1) % int(q.cfg.s)))
+//@   ensures implies(seq < q.cfg.s, moved == (q.sequenceBase != old(q.sequenceBase)))
+//@   ensures implies(!moved, q.sequenceBase == old(q.sequenceBase))
 
 //@ func (q *queue) processNACK(seq uint8) (resend bool, bumped bool)
 //@   props C01 C07 C09
@@ -196,8 +197,10 @@ func syinv(c *syncer) bool {
 //@   ensures (err == nil) == wellformed(b)
 //@   ensures implies(err != nil, isnil(msg))
 //@   ensures implies(err == nil && b[0] == DATA, is[*PacketData](msg) && fresh(as[*PacketData](msg)) &&
-//@           as[*PacketData](msg).Seq == b[1] && as[*PacketData](msg).FinalChunk == (b[2] == TRUE) &&
-//@           as[*PacketData](msg).IsPing == (b[3] == TRUE) && sameslice(as[*PacketData](msg).Payload, b[4:]))
+//@           as[*PacketData](msg).Seq == b[1] &&
+//@           implies(b[2] == TRUE, as[*PacketData](msg).FinalChunk) && implies(b[2] == FALSE, !as[*PacketData](msg).FinalChunk) &&
+//@           implies(b[3] == TRUE, as[*PacketData](msg).IsPing) && implies(b[3] == FALSE, !as[*PacketData](msg).IsPing) &&
+//@           sameslice(as[*PacketData](msg).Payload, b[4:]))
 //@   ensures implies(err == nil && b[0] == ACK, is[*PacketACK](msg) && fresh(as[*PacketACK](msg)) && as[*PacketACK](msg).Seq == b[1])
 //@   ensures implies(err == nil && b[0] == NACK, is[*PacketNACK](msg) && fresh(as[*PacketNACK](msg)) && as[*PacketNACK](msg).Seq == b[1])
 //@   ensures implies(err == nil && b[0] == SYN, is[*PacketSYN](msg) && fresh(as[*PacketSYN](msg)) && as[*PacketSYN](msg).N == b[1])
@@ -207,3 +210,79 @@ func syinv(c *syncer) bool {
 //@ func containsSequence(base, top, seq uint8) (r bool)
 //@   props C01 C07 C09
 //@   ensures r == inwin(base, top, seq)
+
+// ---- lemmas (ghost code, verified like any other function) -------------------
+
+// msgEq: two messages have the same dynamic type and equal field values
+// (payloads compared byte-wise; nil and empty payloads are the same value).
+func msgEq(a, b Message) bool {
+	if is[*PacketData](a) {
+		return is[*PacketData](b) && as[*PacketData](a).Seq == as[*PacketData](b).Seq &&
+			as[*PacketData](a).FinalChunk == as[*PacketData](b).FinalChunk &&
+			as[*PacketData](a).IsPing == as[*PacketData](b).IsPing &&
+			seqeq(as[*PacketData](a).Payload, as[*PacketData](b).Payload)
+	}
+	if is[*PacketACK](a) {
+		return is[*PacketACK](b) && as[*PacketACK](a).Seq == as[*PacketACK](b).Seq
+	}
+	if is[*PacketNACK](a) {
+		return is[*PacketNACK](b) && as[*PacketNACK](a).Seq == as[*PacketNACK](b).Seq
+	}
+	if is[*PacketSYN](a) {
+		return is[*PacketSYN](b) && as[*PacketSYN](a).N == as[*PacketSYN](b).N
+	}
+	if is[*PacketFIN](a) {
+		return is[*PacketFIN](b)
+	}
+	if is[*PacketSYNACK](a) {
+		return is[*PacketSYNACK](b)
+	}
+	return false
+}
+
+func seqeq(a, b []byte) bool {
+	if len(a) != len(b) {
+		return false
+	}
+	for i := range a {
+		if a[i] != b[i] {
+			return false
+		}
+	}
+	return true
+}
+
+// isPacket: m is one of the six packet types (non-nil).
+func isPacket(m Message) bool {
+	return (is[*PacketData](m) && as[*PacketData](m) != nil) || (is[*PacketACK](m) && as[*PacketACK](m) != nil) ||
+		(is[*PacketNACK](m) && as[*PacketNACK](m) != nil) || (is[*PacketSYN](m) && as[*PacketSYN](m) != nil) ||
+		(is[*PacketFIN](m) && as[*PacketFIN](m) != nil) || (is[*PacketSYNACK](m) && as[*PacketSYNACK](m) != nil)
+}
+
+// lemmaRoundTrip: every packet deserialises from its own serialisation to an
+// equal value.
+func lemmaRoundTrip(m Message) (m2 Message, err error) {
+	b, _ := m.Serialize()
+	return Deserialize(b)
+}
+
+//@ func lemmaRoundTrip(m Message) (m2 Message, err error)
+//@   props C19
+//@   requires isPacket(m)
+//@   ensures err == nil && msgEq(m, m2)
+
+// lemmaReencode: bytes that deserialise successfully re-serialise to a packet
+// that deserialises to the same value again.
+func lemmaReencode(b []byte) (m1, m2 Message, e1, e2 error) {
+	m1, e1 = Deserialize(b)
+	if e1 != nil {
+		return
+	}
+	b2, _ := m1.Serialize()
+	m2, e2 = Deserialize(b2)
+	return
+}
+
+//@ func lemmaReencode(b []byte) (m1, m2 Message, e1, e2 error)
+//@   props C19
+//@   ensures implies(e1 == nil, e2 == nil && msgEq(m1, m2))
